@@ -11,6 +11,7 @@ import (
 	"os"
 	"path/filepath"
 	"sort"
+	"strconv"
 	"strings"
 )
 
@@ -48,6 +49,7 @@ type InstrumentReport struct {
 	CritBrackets int         `json:"crit_brackets"`
 	ExprWrapping bool        `json:"expr_wrapping"`
 	AtomicWraps  int         `json:"atomic_wraps"`
+	Constants    []int       `json:"integer_constants"` // harvested from the library source (size dictionary)
 	SimLocks     int         `json:"simulated_locks"`
 	Uncontrolled []Construct `json:"uncontrolled_constructs"`
 }
@@ -155,6 +157,13 @@ func instrumentTree(dir, verifsimSrc string, wrapExpr bool) (*InstrumentReport, 
 		return nil, err
 	}
 	sort.Strings(files)
+	constSet := map[int]bool{}
+	defer func() {
+		for v := range constSet {
+			rep.Constants = append(rep.Constants, v)
+		}
+		sort.Ints(rep.Constants)
+	}()
 	next := firstLibSite
 	for _, p := range files {
 		rel, _ := filepath.Rel(dir, p)
@@ -174,6 +183,16 @@ func instrumentTree(dir, verifsimSrc string, wrapExpr bool) (*InstrumentReport, 
 			continue
 		}
 		rep.Files++
+		// integer literals of the library: thresholds live among them (64, 256,
+		// 1024, ...). The generator places some sizes just below/at/above each.
+		ast.Inspect(f, func(n ast.Node) bool {
+			if bl, ok := n.(*ast.BasicLit); ok && bl.Kind == token.INT {
+				if v, err := strconv.ParseInt(bl.Value, 0, 64); err == nil && v >= 3 && v <= 20000 {
+					constSet[int(v)] = true
+				}
+			}
+			return true
+		})
 		var ins []insertion
 		seq := 0
 		add := func(pos token.Pos, text string) {
